@@ -26,6 +26,9 @@ func checkC06(c *Ctx) {
 	r172(c, "R06.5 disposal-chain")
 	// ... and a failed command disposes nothing else: the targets of live services keep being probed (shared with C09)
 	r096(c, "R06.6 probing-continues")
+	// a refused command leaves the saved state alone: what is written is what was listed under the same locks, every time
+	// (shared with C12)
+	r122(c, "R06.7 snapshots-serialised-and-unconditional")
 }
 
 func r061(c *Ctx, rule string) {
